@@ -162,6 +162,7 @@ class Prog:
     def _prep(self, f):
         if 'blocks' not in f:
             return
+        f['has_defer'] = any(I['op'] == 'Defer' for b in f['blocks'] for I in b['instrs'])
         for b in f['blocks']:
             ins = b['instrs']
             nphi = 0
@@ -415,6 +416,8 @@ class Machine:
         self.alloc_label = ''
         self._idx_w = {}
         self._merge_w = None
+        self.panic_stack = []
+        self._last_frame = None
         self.concretize_slices = False  # symbolic slice offsets/lengths are kept symbolic (concretised on demand)
         from . import builtins_go
         builtins_go.install(self)
@@ -715,19 +718,51 @@ class Machine:
         return self.call(ms[mname], [recv.val] + list(args))
 
     def run(self, f, args, bindings):
+        """execute one function; deferred calls run on normal return (RunDefers) and on panic; a deferred call to
+        recover() stops the panic and control resumes in the function's recover block (go/ssa semantics)"""
+        if not f.get('has_defer'):
+            return self._run(f, args, bindings, None)
+        defers = []
+        try:
+            return self._run(f, args, bindings, defers)
+        except GoPanic as p:
+            self.panic_stack.append(p)
+            recovered = False
+            try:
+                while defers:
+                    fn, dargs = defers.pop()
+                    fn(dargs)
+                    if self.panic_stack[-1] is None:
+                        recovered = True
+            finally:
+                self.panic_stack.pop()
+            if not recovered:
+                raise
+            if 'recover' not in f:
+                # no named results: return zero values
+                sig = self.prog.types[f['sig']]
+                rs = [self.zero(t) for t in sig['results']]
+                return rs[0] if len(rs) == 1 else (tuple(rs) if rs else None)
+            return self._run(f, args, bindings, defers, start_block=f['recover'], frame=self._last_frame)
+
+    def _run(self, f, args, bindings, defers, start_block=0, frame=None):
         self.called.add(f['name'])
         self.depth += 1
         if self.depth > 200:
             raise Unsupported("call depth")
-        fr = {}
-        for p, a in zip(f['params'], args):
-            fr[p['n']] = a
-        if len(args) != len(f['params']):
-            raise Unsupported("arity mismatch calling %s: %d vs %d" % (f['name'], len(args), len(f['params'])))
-        for p, a in zip(f['freevars'], bindings):
-            fr[p['n']] = a
+        fr = {} if frame is None else frame
+        if frame is None:
+            for p, a in zip(f['params'], args):
+                fr[p['n']] = a
+            if len(args) != len(f['params']):
+                raise Unsupported("arity mismatch calling %s: %d vs %d" % (f['name'], len(args), len(f['params'])))
+            for p, a in zip(f['freevars'], bindings):
+                fr[p['n']] = a
+        if defers is not None:
+            fr['$defers'] = defers
+            self._last_frame = fr
         blocks = f['blocks']
-        b = blocks[0]
+        b = blocks[start_block]
         prev = -1
         fname = f['name']
         visits = {}
@@ -1287,11 +1322,28 @@ def _i_multiconvert(m, fr, I):
 
 
 def _i_defer(m, fr, I):
-    raise Unsupported("defer")
+    c = I['call']
+    args = [m.value(fr, a) for a in c['args']]
+    if 'invoke' in c:
+        recv = m.value(fr, c['recv'])
+        fn = lambda a, recv=recv, nm=c['invoke']: m.invoke(recv, nm, a)
+    else:
+        f = c['fn']
+        if f['k'] == 'b':
+            fn = lambda a, nm=f['n'], c=c, I=I: m.builtin(nm, a, c, I)
+        elif f['k'] == 'f':
+            fn = lambda a, nm=f['n']: m.call(nm, a)
+        else:
+            fv = m.value(fr, f)
+            fn = lambda a, fv=fv: m.call_value(fv, a)
+    fr['$defers'].append((fn, args))
 
 
 def _i_rundefers(m, fr, I):
-    pass
+    d = fr.get('$defers')
+    while d:
+        fn, args = d.pop()
+        fn(args)
 
 
 _DISPATCH = {
